@@ -22,11 +22,13 @@ import (
 	"github.com/lestrrat-go/jwx/v2/jwk"
 	"github.com/nuts-foundation/go-stoabs"
 	"github.com/nuts-foundation/go-stoabs/bbolt"
+	"github.com/nuts-foundation/go-stoabs/redis7"
 	"github.com/nuts-foundation/nuts-node/audit"
 	"github.com/nuts-foundation/nuts-node/core"
 	nutsCrypto "github.com/nuts-foundation/nuts-node/crypto"
 	"github.com/nuts-foundation/nuts-node/crypto/hash"
 	"github.com/nuts-foundation/nuts-node/network/dag/tree"
+	"github.com/redis/go-redis/v9"
 	bboltlib "go.etcd.io/bbolt"
 	"verif.local/h/dagshape"
 )
@@ -469,11 +471,26 @@ func vdCopyFile(src, dst string) error {
 }
 
 // vdOpenState opens (or reopens) a state on dir with the standard verifiers.
+// vdOpenKVRedis opens the Redis back-end of go-stoabs on the given server (the harness runs miniredis in-process). On Redis write
+// transactions are buffered until commit and reads inside them see committed data only; writers are serialised by the store-wide
+// lock that stoabs.WithWriteLock() takes.
+func vdOpenKVRedis(addr string) (*vdFaultKV, error) {
+	inner, err := redis7.CreateRedisStore("verifdag", &redis.Options{Addr: addr}, stoabs.WithLockAcquireTimeout(60*time.Second))
+	if err != nil {
+		return nil, err
+	}
+	return &vdFaultKV{inner: inner}, nil
+}
+
 func vdOpenState(dir string, res *vdKeyResolver) (*state, *vdFaultKV, error) {
 	kv, err := vdOpenKV(dir)
 	if err != nil {
 		return nil, nil, err
 	}
+	return vdOpenStateOn(kv, res)
+}
+
+func vdOpenStateOn(kv *vdFaultKV, res *vdKeyResolver) (*state, *vdFaultKV, error) {
 	s, err := NewState(kv, NewPrevTransactionsVerifier(), NewTransactionSignatureVerifier(res))
 	if err != nil {
 		_ = kv.Close(context.Background())
